@@ -4,7 +4,7 @@ SPEC = {
     "props_module": "C01",
     "model_vo": "theories/C01/Model.vo",
     "bin": "c01",
-    "n": {"quick": 40, "thorough": 400},
+    "n": {"quick": 40, "thorough": 200},
     "engine_timeout": 2400,
     "rule": "engine c01: random histories (quick 6-19 calls, thorough 10-49) of NewWriter/Add/Delete/Commit/Rollback/Drop/"
             "Compact/Reopen over 1-2 writer handles on the real FsStorage with the fs-trace hook on; the trace is replayed "
